@@ -221,24 +221,26 @@ pub fn run(rep: &mut Report, tier: &str, seed: u64) {
         runner.table = crate::oracle::OracleTable::new();
         runner.table.arm_sets = crate::astx::scan_arm_sets(&loaded.file);
         let case = Case { tsg: &text, loaded: &loaded, source: &source, info: &info, mi: &mi };
-        let expect = reference(&regexes, &subject).map(|tr| tr.into_iter().filter(|(k, _)| !empty[*k]).collect::<Vec<_>>());
+        let full = reference(&regexes, &subject);
         let competing = {
-            // were there iterations with >= 2 matching arms?
+            // were there iterations with >= 2 matching arms? (walked over the UNFILTERED trace: arms with an empty block consume too)
             let mut i = 0;
             let mut any = false;
-            if let Ok(tr) = &expect {
-                for (k, groups) in tr {
+            if let Ok(tr) = &full {
+                for (k, _) in tr {
                     let m = regexes.iter().filter(|re| re.is_match(&subject[i..])).count();
                     if m >= 2 {
                         any = true;
                     }
-                    let c = regexes[*k].captures(&subject[i..]).unwrap();
-                    let _ = groups;
-                    i += c.get(0).unwrap().end();
+                    match regexes[*k].captures(&subject[i..]).and_then(|c| c.get(0).map(|m0| m0.end())) {
+                        Some(e) => i += e,
+                        None => break,
+                    }
                 }
             }
             any
         };
+        let expect = full.map(|tr| tr.into_iter().filter(|(k, _)| !empty[*k]).collect::<Vec<_>>());
         if competing {
             rep.count("scans-with-competing-arms");
         }
